@@ -28,7 +28,7 @@ class Contract:
     comp_effects = {}
     inline = ()
     assumptions = ()
-    timeout_ms = 10000
+    timeout_ms = 4000
 
     def __init__(self, key=None):
         if key is not None:
@@ -98,19 +98,22 @@ class Contract:
             return [(x.copy(env=st.env), v) for x, v in st1]
         st1 = st1.copy(env=st.env)
         for (label, g) in self.pre(A, st1):
-            en.oblige(st1, f"call:{self.key.split('::')[1]}:pre:{label}", g)
+            en.oblige(st1, f"call:{self.key.split('::')[1]}:pre:{label}", drop_naming_atoms(g))
         for ep in self.elem_preds(A):
             seq, pred = ep[0], ep[1]
             if len(ep) > 2:
                 if en.fork(st1, ep[2]) is None:
                     continue
                 guard = ep[2]
-                pred = (lambda x, pred=pred, guard=guard: z3.Implies(guard, pred(x)))
-            xs = concrete_list(seq)
+                pred = (lambda x, pred=pred, guard=guard: drop_naming_atoms(z3.Implies(guard, pred(x))))
+            else:
+                pred = (lambda x, pred=pred: drop_naming_atoms(pred(x)))
+            xs = concrete_list(z3.simplify(seq))
             if xs is not None:
                 for i, x in enumerate(xs):
                     en.oblige(st1, f"call:{self.key.split('::')[1]}:pre:elem{i}", pred(x))
-            elif any(z3.simplify(t).eq(z3.simplify(seq)) and p2 is ep[1] for (t, p2) in st1.elem_preds):
+            elif any(z3.simplify(t).eq(z3.simplify(seq)) and p2 is ep[1] and
+                     (g2 is None or en.fork(st1.assume(ep[2]) if len(ep) > 2 else st1, z3.Not(g2)) is None) for (t, p2, g2) in st1.elem_preds):
                 pass
             else:
                 k = z3.Int('ek_')
@@ -144,6 +147,25 @@ class Contract:
         for g in getattr(self, 'modifies_ghost', ()):
             ghost[g] = fresh(f"ghost_{g}", st.ghost[g].sort()) if g in st.ghost else None
         return st.copy(heap=heap, fields=fields, ghost=ghost)
+
+
+def drop_naming_atoms(g):
+    """`oref(x) >= 0` says "x exists before the call" (fresh allocations of the callee get negative references).  It is a naming
+    convention used while verifying the callee's body, never an obligation of the caller: every argument is old for the callee."""
+    subs = []
+    seen, stack = set(), [g]
+    while stack:
+        e = stack.pop()
+        if e.get_id() in seen:
+            continue
+        seen.add(e.get_id())
+        if z3.is_app(e):
+            if e.decl().kind() == z3.Z3_OP_GE and z3.is_app(e.arg(0)) and e.arg(0).decl().name() == 'oref' and z3.is_int_value(e.arg(1)) and e.arg(1).as_long() == 0:
+                subs.append((e, z3.BoolVal(True)))
+            stack.extend(e.children())
+        elif z3.is_quantifier(e):
+            stack.append(e.body())
+    return z3.substitute(g, *subs) if subs else g
 
 
 class Lemma:
@@ -200,7 +222,7 @@ def verify(contract, registry, tier='quick', mutate=None):
             env[node.args.kwarg.arg] = A.get(node.args.kwarg.arg, SX.KwBundle({}, None))
         for k, v in getattr(contract, 'extra_env', lambda en, A: {})(en, A).items():
             env[k] = v
-        st = st.copy(env=env, ghost=dict(contract.ghost0(A)), elem_preds=tuple((ep[0], (ep[1] if len(ep) < 3 else (lambda x, ep=ep: z3.Implies(ep[2], ep[1](x))))) for ep in contract.elem_preds(A)))
+        st = st.copy(env=env, ghost=dict(contract.ghost0(A)), elem_preds=tuple((ep[0], ep[1], (ep[2] if len(ep) > 2 else None)) for ep in contract.elem_preds(A)))
         pre = [g for (_, g) in contract.pre(A, st)]
         if hasattr(contract, 'pre_body'):
             pre += [g for (_, g) in contract.pre_body(A, st)]
